@@ -14,7 +14,7 @@ func init() {
 		Explanation: "Decides necessary structural conditions of the ledger equation in wtxmgr: (R1) every one of the five spendability passes (Store.Balance x3, fetchCredits x2) consults both the lease state and the " +
 			"unconfirmed-spender index, with the required semantics: the first balance pass subtracts a mined credit exactly once when it is leased or spent by an unconfirmed tx (never twice), all other passes skip such outputs; " +
 			"fetchCredits' filter flags are bound to the right constants at UnspentOutputs/OutputsToWatch; the confirmation/maturity comparison of the second pass has the canonical form confs=syncHeight-height+1 < minConf | coinbase & confs < maturity; " +
-			"(R2) every function that edits the unspent index also maintains the mined-balance counter; (R3) only wtxmgr writes the wtxmgr namespace; (R4) loops that process all inputs/outputs/transactions of a record have no early exit; (R5) conflict removal is transitive over every output of a removed transaction (shared with C02-R2). " +
+			"(R2) every function that edits the unspent index also maintains the mined-balance counter; (R3) only wtxmgr writes the wtxmgr namespace; (R4) loops that process all inputs/outputs/transactions of a record have no early exit; (R5) conflict removal is transitive over every output of a removed transaction (shared with C02-R2); (R6) a credit record is inserted only after the duplicate test on the same store, and a credit value rewritten without its spender clears the spent flag. " +
 			"NOT decided: amounts, arithmetic of the running counter over histories, any history-dependent drift.",
 		Assumptions: []string{"bucket identity by the package-level name variable passed to Nested*Bucket", "call graph over-approximates callees"},
 		Run:         runC01,
@@ -330,6 +330,9 @@ func runC01(c *Ctx) {
 	runC01R2(c)
 	runC01R3(c)
 	checkConflictRemoval(c, "C01-R5")
+	checkExistsThenPut(c, "C01-R6")
+	checkCreditRewriteFlags(c, "C01-R6")
+	checkLoopCarriedStructs(c, "C01-R4", []string{"rollback", "updateMinedBalance"})
 	runLoopCompleteness(c, "C01-R4", []string{"updateMinedBalance", "rollback", "insertMemPoolTx", "removeDoubleSpends", "removeConflict", "deleteUnminedTx"})
 }
 
